@@ -276,10 +276,23 @@ impl<'a> RefCtx<'a> {
     }
     /// CoreSign: sk * hash_to_curve(hash input, tag)
     pub fn sign<R: RefG>(&self, k: i64, scheme: &str, msg: &[u8]) -> R::S {
+        // memoised per thread (the evaluator is a pure function; the library under test is never cached)
+        thread_local! { static MEMO: std::cell::RefCell<std::collections::HashMap<(String, i64, String, Vec<u8>), Vec<u8>>> = std::cell::RefCell::new(std::collections::HashMap::new()); }
+        let key = (R::NAME.to_string(), k, scheme.to_string(), msg.to_vec());
+        if let Some(b) = MEMO.with(|m| m.borrow().get(&key).cloned()) {
+            return R::dec_s(&b).expect("memoised point");
+        }
         let (tag, pre) = self.scheme_tag(scheme);
         let pk = self.pk_of::<R>(k);
         let hi = self.hash_input::<R>(&pre, &pk, msg);
-        R::hash_s(&hi, &self.tables.tag(R::NAME, &tag)) * rscalar(k)
+        let s = R::hash_s(&hi, &self.tables.tag(R::NAME, &tag)) * rscalar(k);
+        MEMO.with(|m| {
+            let mut m = m.borrow_mut();
+            if m.len() < 4096 {
+                m.insert(key, R::enc_s(&s));
+            }
+        });
+        s
     }
     /// signature recipe -> (label, point)
     pub fn sig<R: RefG>(&self, sr: &Value) -> (String, R::S) {
